@@ -140,4 +140,5 @@ example : (sort [⟨"C", ["B", "A"]⟩, ⟨"B", ["A", "u8"]⟩, ⟨"A", []⟩]).
 /-- a definition cycle is reported (the sort returns, with an error) -/
 example : sort [⟨"A", ["B"]⟩, ⟨"B", ["A"]⟩] = none := by decide
 
+
 end Prophy.C15
